@@ -2,6 +2,8 @@
 import json, os, re, shutil, time
 import vlib, cachefam
 
+RP = re.escape(vlib.REPO.rstrip("/"))  # source paths in race reports start with the tree the drivers were built from
+
 
 def run(nbeh, rounds, seed):
     f = cachefam.fam("race_gen", "NF_count", 24, Backend="memory", NKeys=3, ShardOf="<- Shard112", NClients=3, InitLimit=3, Limits={2, 3},
@@ -17,7 +19,7 @@ def run(nbeh, rounds, seed):
         rc, out, err, _ = vlib.run_driver(binp, ["-in", "in.json", "-rounds", str(rounds)], cwd=d, timeout=1500,
                                           env={"GORACE": "halt_on_error=0 exitcode=0 history_size=3"})
         races = parse_races(err)
-        m = re.search(r"fatal error: (concurrent map[^\n]*)\n(?:.*\n)*?(reservoir/[^\s(]+(?:\([^)]*\))?[^\s(]*)\(.*\n\s+/repo/(\S+?):(\d+)", err)
+        m = re.search(r"fatal error: (concurrent map[^\n]*)\n(?:.*\n)*?(reservoir/[^\s(]+(?:\([^)]*\))?[^\s(]*)\(.*\n\s+" + RP + r"/(\S+?):(\d+)", err)
         if m:
             # the runtime itself detected unsynchronised map access inside the proxy and killed the process
             races.append({"pair": "fatal: %s in %s" % (m.group(1), m.group(2)), "where": ["%s:%s" % (m.group(3), m.group(4))], "count": 1,
@@ -30,7 +32,7 @@ def run(nbeh, rounds, seed):
         shutil.rmtree(d, ignore_errors=True)
 
 
-FRAME = re.compile(r"^\s+(reservoir/[\w/.()*\[\]]+)\(\)?\n\s+(/repo/[\w/._-]+):(\d+)", re.M)
+FRAME = re.compile(r"^\s+(reservoir/[\w/.()*\[\]]+)\(\)?\n\s+(" + RP + r"/[\w/._-]+):(\d+)", re.M)
 
 
 def parse_races(stderr):
@@ -41,10 +43,10 @@ def parse_races(stderr):
         parts = re.split(r"\n\n", block)
         tops = []
         for part in parts[:2]:
-            m = re.search(r"\n\s+(reservoir/[^\s(]+(?:\([^)]*\))?[^\s]*)\(\)\n\s+(/repo/\S+?):(\d+)", "\n" + part)
+            m = re.search(r"\n\s+(reservoir/[^\s(]+(?:\([^)]*\))?[^\s]*)\(\)\n\s+(" + RP + r"/\S+?):(\d+)", "\n" + part)
             if m:
                 fn = re.sub(r"\[\.\.\.\]", "", m.group(1))
-                tops.append((fn, m.group(2).replace("/repo/", "") + ":" + m.group(3)))
+                tops.append((fn, m.group(2).replace(vlib.REPO.rstrip("/") + "/", "") + ":" + m.group(3)))
             else:
                 tops.append(("?", "?"))
         if len(tops) < 2:
